@@ -103,18 +103,3 @@ Definition env_spec_failures (cases : list env_case) : list nat :=
   find_idx (fun c => let '(r0, b0, t0, evs, sizes) := c in
      negb (env_ok 2000000 r0 (burst_max b0 evs) t0 0 0 evs && list_eqb Z.eqb (grants evs) sizes)) cases 0.
 
-(* the exact token bucket never grants what the envelope forbids: model run on the same events (grants recomputed) *)
-Definition env_mismatches (cases : list env_case) : list nat :=
-  find_idx (fun c => let '(r0, b0, t0, evs, _) := c in
-     (* every grant of the implementation must also be within reach of the exact bucket given 2 ms slack:
-        replay the events on the exact bucket started 2 ms earlier *)
-     let fix go (b : tb) (l : list (Z * Z * Z * Z)) : bool :=
-       match l with
-       | [] => true
-       | (k, t, a, bb) :: tl =>
-           if k =? 0 then
-             let '(b', ok) := tb_allow b (t + 2000000) (Z.max 0 (a - 1)) in
-             (if bb =? 1 then ok else true) && go b' tl
-           else go (tb_set b (t + 2000000) a bb) tl
-       end in
-     negb (go (mkTB r0 b0 (b0 * NS) t0) evs)) cases 0.
